@@ -4,10 +4,12 @@ import json,sys
 pid=sys.argv[1]
 root=sys.argv[2] if len(sys.argv)>2 else '/tmp/seed'
 focus=sys.argv[3] if len(sys.argv)>3 else ''
+angle=sys.argv[4] if len(sys.argv)>4 else ''
 for l in open('/verif/properties.jsonl'):
     p=json.loads(l)
     if p['id']==pid: break
 focusline = f"For this round, make the change in {focus} (one of the files the property is anchored in), whichever function there you find most promising.\n\n" if focus else ""
+if angle: focusline += f"For this round, prefer a breakage of this kind (the property quantifies over it): {angle}.\n\n"
 print(f"""You are helping evaluate a verification effort for the Go project aukilabs/hagall (a WebSocket real-time relay server: sessions, participants, entities, entity components, plug-in modules). You have your own scratch git worktree of the repository at {root}/{pid} (work ONLY there; never touch /repo or /verif; do not read anything under /verif).
 
 Here is a semantic property the code base is supposed to satisfy:
